@@ -610,3 +610,275 @@ def handle_model(P, R):
         R.holds('R-PAIR', dele.qualname,
                 f'finaliser model ({n} handles, each finalised twice): '
                 'gives back exactly one reference, once')
+
+
+def _fa_states(kind):
+    """(state, requests) pairs for the find_or_add models."""
+    out = []
+    if kind == 'bdd':
+        vars_ = {'a': 0, 'b': 1, 'c': 2}
+        for nodes, free in (
+                ({2: (2, -1, 1), 3: (1, -1, 2)}, 4),
+                ({2: (2, -1, 1), 5: (1, 2, 1)}, 3)):
+            env = _manager_state(vars_, nodes)
+            env['self._min_free'] = free
+            env['self.max_nodes'] = 50
+            env['self'] = interp.Sym('self')
+            below = {0: [u for u in env['self._succ']],
+                     1: [u for u, t in env['self._succ'].items()
+                         if t[0] > 1]}
+            reqs = []
+            for i, kids in below.items():
+                refs = [s * u for u in kids for s in (1, -1)]
+                reqs += [(i, (v, w)) for v in refs for w in refs]
+            out.append((env, reqs))
+        return out
+    # mdd: x has three values, y two
+    dvars = {'x': {'level': 0, 'len': 3}, 'y': {'level': 1, 'len': 2}}
+    for nodes, free, mx in (
+            ({2: (1, 1, -1)}, set(), 2),
+            ({3: (1, 1, -1)}, {2}, 3)):
+        succ = {1: (2, None)}
+        succ.update(nodes)
+        ref = {u: 0 for u in succ}
+        for u, t in nodes.items():
+            for x in t[1:]:
+                ref[abs(x)] += 1
+        env = {
+            'self': interp.Sym('self'),
+            'self.vars': {k: dict(v) for k, v in dvars.items()},
+            'self._level_to_var': None,
+            'self._succ': succ,
+            'self._pred': {t: u for u, t in succ.items()},
+            'self._ref': ref, 'self._max': mx, 'self._free': set(free),
+            'self._ite_table': {}, 'self.max_nodes': 50}
+        reqs = []
+        refs1 = [1, -1]
+        reqs += [(1, (a, b)) for a in refs1 for b in refs1]
+        refs0 = [s * u for u in succ for s in (1, -1)]
+        reqs += [(0, (a, b, c)) for a in refs0 for b in refs0
+                 for c in refs0]
+        out.append((env, reqs))
+    return out
+
+
+def find_or_add_model(P, R, cls='dd.bdd.BDD'):
+    """`find_or_add(level, *successors)` for every valid request on small
+    managers, compared with what a reduced diagram with complemented
+    edges requires (C06 / C15): equal successors give the successor and
+    no node; otherwise the node is stored with its distinguished edge
+    (BDD: high, MDD: first) regular, all successors negated together and
+    the sign returned on the reference; an existing node is found, not
+    duplicated; a new node gets an unused number above 1, count zero,
+    entries in both tables that are inverse of each other, and one
+    reference on each successor; nothing else changes."""
+    kind = 'bdd' if cls == 'dd.bdd.BDD' else 'mdd'
+    f = P.func(f'{cls}.find_or_add')
+    helpers = ['incref', '__contains__', '__len__']
+    helpers += ['_next_free_int'] if kind == 'bdd' else [
+        '_allocate', 'var_at_level']
+    stubs = method_stubs(P, cls, [
+        h for h in helpers if P.func(f'{cls}.{h}', required=False)],
+        extra={'_request_reordering': lambda m, c, a, k: None})
+    params = [p for p in f.params if p != 'self']
+    star = f.node.args.vararg.arg if f.node.args.vararg else None
+    if kind == 'bdd' and len(params) != 3:
+        raise AnalysisError(f'{f.qualname} no longer takes (level, low, '
+                            'high)')
+    if kind == 'mdd' and (star is None or len(params) < 1):
+        raise AnalysisError(f'{f.qualname} no longer takes (level, '
+                            '*successors)')
+    problems = dict()
+    n = 0
+    dist = (lambda kids: kids[-1]) if kind == 'bdd' else (
+        lambda kids: kids[0])
+    for env0, reqs in _fa_states(kind):
+        for i, kids in reqs:
+            n += 1
+            env = copy.deepcopy({k: v for k, v in env0.items()
+                                 if k != 'self'})
+            env['self'] = env0['self']
+            before = _snapshot(env)
+            if kind == 'bdd':
+                env[params[0]] = i
+                env[params[1]], env[params[2]] = kids
+            else:
+                env[params[0]] = i
+                env[star] = tuple(kids)
+            what = f'find_or_add({i}, {", ".join(map(str, kids))}) on ' \
+                f'nodes {before["self._succ"]}'
+            try:
+                out, m = interp.run_function(f.node, env, stubs)
+            except interp.Unknown as e:
+                R.undecided('R-NORM', f.qualname, 'find_or_add model',
+                            str(e))
+                return
+            after = _snapshot(m.env)
+            tables = ('self._succ', 'self._pred', 'self._ref')
+            same = all(after[k] == before[k] for k in tables)
+            if out[0] != 'return':
+                problems.setdefault('refuses-valid', (
+                    f'{what}: {out[0]} {out[1]}'))
+                continue
+            r = out[1]
+            s = -1 if dist(kids) < 0 else 1
+            norm = tuple(s * x for x in kids)
+            if len(set(kids)) == 1:
+                if r != kids[0] or not same:
+                    problems.setdefault('elimination', (
+                        f'{what}: equal successors must give the '
+                        f'successor {kids[0]} and no node; got {r}' + (
+                            '' if same else ' and changed tables')))
+                continue
+            key = (i, *norm)
+            old = before['self._pred'].get(key)
+            new = [u for u in after['self._succ']
+                   if u not in before['self._succ']]
+            if old is not None:
+                if new:
+                    problems.setdefault('key', (
+                        f'{what}: the node {old} = {key} exists, but a '
+                        f'second node {new} is created'))
+                elif not same:
+                    problems.setdefault('insert', (
+                        f'{what}: the node exists, yet the tables are '
+                        'changed'))
+                elif r != s * old:
+                    problems.setdefault('return', (
+                        f'{what}: returns {r} for the existing node '
+                        f'{old} with sign {s}'))
+                continue
+            if len(new) != 1:
+                problems.setdefault('insert', (
+                    f'{what}: {len(new)} node(s) created instead of one'))
+                continue
+            u = new[0]
+            t = after['self._succ'][u]
+            if t != key:
+                d = dist(t[1:]) if len(t) > 1 and all(
+                    isinstance(x, int) for x in t[1:]) else None
+                if d is not None and d < 0:
+                    sub = 'no-normalisation'
+                    why = ('is stored with a complemented '
+                           f'{"high" if kind == "bdd" else "first"} edge')
+                elif t[0] != i or sorted(map(abs, t[1:])) != sorted(
+                        map(abs, norm)) or tuple(map(abs, t[1:])) != \
+                        tuple(map(abs, norm)):
+                    sub = 'key'
+                    why = f'is stored as {t}, expected {key}'
+                else:
+                    sub = 'children'
+                    why = (f'is stored as {t}: the successors are not '
+                           f'negated together (expected {key})')
+                problems.setdefault(sub, f'{what}: the new node {u} {why}')
+                continue
+            if u <= 1 or u in before['self._succ']:
+                problems.setdefault('insert', (
+                    f'{what}: the new node takes the number {u}'))
+            if r != s * u:
+                problems.setdefault('return', (
+                    f'{what}: the new node {u} = {t} is returned as {r}; '
+                    f'the reference must carry the sign {s}'))
+            wp = dict(before['self._pred'])
+            wp[key] = u
+            if after['self._pred'] != wp:
+                problems.setdefault('insert', (
+                    f'{what}: the unique table is not the inverse of the '
+                    f'node table after the insertion'))
+            wr = dict(before['self._ref'])
+            wr[u] = 0
+            if after['self._ref'].get(u) != 0:
+                problems.setdefault('initial-count', (
+                    f'{what}: the new node starts with count '
+                    f'{after["self._ref"].get(u)}'))
+            for x in norm:
+                wr[abs(x)] += 1
+            if {k: v for k, v in after['self._ref'].items() if k != u} \
+                    != {k: v for k, v in wr.items() if k != u}:
+                problems.setdefault('edge-without-ref', (
+                    f'{what}: counts after the insertion are '
+                    f'{after["self._ref"]}; one reference per stored edge '
+                    f'gives {wr}: the children can be collected while the '
+                    'parent is alive (or are never collected)'))
+            if kind == 'bdd':
+                mf = after.get('self._min_free')
+                if not isinstance(mf, int) or mf <= 1 or \
+                        mf in after['self._succ']:
+                    problems.setdefault('min-free', (
+                        f'{what}: _min_free = {mf} afterwards is not an '
+                        'unused number above 1: the next insertion '
+                        'overwrites a node'))
+            else:
+                if u in after.get('self._free', set()) or \
+                        after.get('self._max', 0) < u:
+                    problems.setdefault('min-free', (
+                        f'{what}: the number {u} is still marked free '
+                        '(or above _max): it is handed out again'))
+    rules = {'initial-count': 'R-PAIR', 'edge-without-ref': 'R-PAIR'}
+    for sub, msg in sorted(problems.items()):
+        R.violation(rules.get(sub, 'R-NORM'), sub, f.qualname,
+                    'incref' if sub == 'edge-without-ref' else (
+                        '_ref' if sub == 'initial-count' else sub), msg,
+                    unit=f.unit.rel, line=f.lineno)
+    if not problems:
+        R.holds('R-NORM', f.qualname,
+                f'find_or_add model ({n} valid requests): elimination, '
+                'distinguished edge regular with the sign on the '
+                'reference, existing node found, new node inserted in '
+                'both tables with count 0 and one reference per edge')
+    return n
+
+
+def mdd_cofactor_model(P, R):
+    """`MDD._top_cofactor(u, level)` on a small diagram with variables of
+    different sizes: one cofactor per value of the variable at `level`;
+    a node below that level is its own cofactor for every value; a node
+    at that level gives its successors, negated when the reference is
+    complemented."""
+    f = P.func('dd.mdd.MDD._top_cofactor')
+    stubs = method_stubs(P, 'dd.mdd.MDD', ['var_at_level'])
+    prm = [p for p in f.params if p != 'self']
+    if len(prm) != 2:
+        raise AnalysisError(f'{f.qualname}: expected (u, level)')
+    dvars = {'x': {'level': 0, 'len': 3}, 'y': {'level': 1, 'len': 2}}
+    succ = {1: (2, None), 2: (1, 1, -1), 3: (0, 2, 1, -2)}
+    size = {0: 3, 1: 2}
+    bad = None
+    n = 0
+    for u in (1, -1, 2, -2, 3, -3):
+        for level in (0, 1):
+            lu = succ[abs(u)][0]
+            if level > lu:
+                continue
+            n += 1
+            env = {'self': interp.Sym('self'),
+                   'self.vars': copy.deepcopy(dvars),
+                   'self._level_to_var': None,
+                   'self._succ': dict(succ), prm[0]: u, prm[1]: level}
+            try:
+                out, m = interp.run_function(f.node, env, stubs)
+            except interp.Unknown as e:
+                R.undecided('R-VISIT', f.qualname, 'cofactor model', str(e))
+                return
+            if level < lu:
+                want = (u,) * size[level]
+            else:
+                s = 1 if u > 0 else -1
+                want = tuple(s * x for x in succ[abs(u)][1:])
+            got = out[1]
+            if out[0] == 'return' and isinstance(got, list):
+                got = tuple(got)
+            if out[0] != 'return' or got != want:
+                bad = (f'_top_cofactor({u}, {level}) with node table '
+                       f'{succ} and sizes {size}: {out[0]} {out[1]}; '
+                       f'expected {want}')
+                break
+        if bad:
+            break
+    if bad:
+        R.violation('R-VISIT', 'cofactors', f.qualname, 'cofactors', bad,
+                    unit=f.unit.rel, line=f.lineno)
+    else:
+        R.holds('R-VISIT', f.qualname,
+                f'cofactor model ({n} requests): one cofactor per value '
+                'of the variable at the level asked for')
